@@ -34,7 +34,7 @@ static entry* xv_cell(struct gca* self, size_t b, size_t o) {
 }
 #define XV_CELL(self, b, o) (*xv_cell(self, b, o))
 #define XV_NEW_BUCKET(self, idx, n) do { XV_OBL("gca.get_entry.in_bounds", (idx) < NUM_BUCKETS && (n) == bucket_size(idx)); } while (0)
-#define max_capacity ((size_t)1 << 31)
+#define max_capacity (XV_MAX_CAPACITY_DEFAULT)     /* template parameter MaxCapacity: its default, extracted from the header */
 #define num_buckets NUM_BUCKETS
 
 /* INT mode: the owner may grow (capacity doubles, cells move) between any two of the thief's atomic accesses */
@@ -76,6 +76,16 @@ static void havoc_gca(struct gca* g, unsigned c) {
   gA_v = nondet_uptr(); gB_v = nondet_uptr();
 }
 
+void h_can_grow(void) {
+  /* every capacity 2^c up to and including max_capacity; a full bucket table must refuse to grow */
+  struct gca g; unsigned c = nondet_uint(); XV_ASSUME(c >= 1 && c <= 31);
+  g._capacity = (size_t)1 << c; g._buckets = c + 1;
+  _Bool r = gca_can_grow(&g);
+  XV_OBL("gca.can_grow.spec", max_capacity == ((size_t)1 << 31) && NUM_BUCKETS == 32);        /* the harness constants are the header's */
+  XV_OBL("gca.can_grow.spec", r == (g._capacity < max_capacity));
+  XV_OBL("gca.can_grow.spec", !r || g._buckets < NUM_BUCKETS);                                /* grow() writes _data[_buckets] */
+  if (r) XV_CANARY("can_grow.yes"); else XV_CANARY("can_grow.no");
+}
 void h_get_entry(void) {
   struct gca g; unsigned c = nondet_uint(); havoc_gca(&g, c);
   size_t i1 = nondet_size(), i2 = nondet_size();
